@@ -12,6 +12,7 @@ CONSTANTS
   Sessions <- MCSessions
   Names <- MCNamesByFam
   Edits <- MCEditsByFam
+  ExtraBits <- AllBits
   MaxOps = 2
 VIEW View
 INVARIANTS AcceptOnlyEdDSA AcceptOnlySignedByNamedKey AcceptOnlyIssuedByVkuth AcceptOnlyForUser
